@@ -7,12 +7,20 @@ use crate::common::phys::PhysLayer;
 use crate::error::Shutdown;
 use crate::retry::{RetryStrategy, RetryCall};
 use crate::shims::net::SerialSettings;
+use crate::decode::DecodeLevel;
 
 //@item rodbus/src/serial/client.rs | SerialChannelTask
 
 impl SerialChannelTask {
     pub open spec fn wf(&self) -> bool { self.client_loop.wf() && !self.client_loop.writer.is_tcp() }
     pub open spec fn states(&self) -> Seq<PortState> { self.listener.log() }
+
+// a serial channel task speaks RTU on both halves (response parser), has no consecutive-timeout limit and starts disabled
+//@fn rodbus/src/serial/client.rs | SerialChannelTask::new | tags=C06,C12,C13,C20
+//@|    ensures r.wf(), r.client_loop.reader.parser is Rtu, r.client_loop.reader.logical().len() == 0,
+//@|        r.client_loop.decode == decode, !r.client_loop.enabled, r.client_loop.rx == rx,
+//@|        r.client_loop.timeout_counter.limit() is None, r.client_loop.tx_id.v() == 0,
+//@|        r.retry == retry, r.listener == listener, r.serial_settings == serial_settings, r.path@ == path@,
 
 // [C13] serial channel: Disabled first, Shutdown exactly once and last
 //@fn rodbus/src/serial/client.rs | SerialChannelTask::run | tags=C13
